@@ -2,7 +2,8 @@
    Property theorems only; every proof is `exact <lemma>`.  model/Bound.v takes its constants
    from gen/GenBound.v (regenerated from /repo); the readers come from spec/Header.v. *)
 From Coq Require Import NArith ZArith List Bool.
-From V Require Import lib.Words gen.GenBound spec.Header model.Bound proofs.Bound_proofs.
+From V Require Import lib.Words gen.GenBound spec.Header model.Bound proofs.Bound_proofs proofs.Bound_multi.
+From V Require model.Concat spec.ConcatSpec.
 Import ListNotations.
 Open Scope N_scope.
 
@@ -98,17 +99,62 @@ Theorem C08_multi_value : forall n t, 0 < n -> n < 2 ^ 62 -> t < 2 ^ 32 ->
 Proof. exact multi_statement. Qed.
 Print Assumptions C08_multi_value.
 
-(* NOT PROVED (kept as a statement): that the multi-threaded compressor stays below the Multi
-   bound needs a model of how CompressMulti splits the input and of what the concatenator
-   removes; the per-part accounting above gives, for t catable large-window parts without
-   magic header, up to n_i + 4 floor(n_i/2^14) + 11 bytes each before stitching. *)
+(* A worker stream (never flushed, no magic header, any WBITS form, catable or not): for every
+   meta-block schedule the block logic permits it takes at most n + 4 floor(n / 2^14) + 11 bytes. *)
+Theorem C08_part : forall c n bs final_empty t,
+  scfg_ok c = true -> s_magic c = false -> n < 2 ^ 62 -> schedule_ok c n bs final_empty = true ->
+  stream_bytes c n bs final_empty = Some t -> t <= n + 4 * (n / 2 ^ 14) + 11.
+Proof. exact part_within_allowance. Qed.
+Print Assumptions C08_part.
+
+(* Any split of the input into parts (any number, any sizes including 0), each compressed by its
+   own worker into a stream without magic header under any schedule: the worker outputs together
+   take at most the Multi bound - 27 + 3 bytes per part (the per-16-KiB allowances of the parts
+   never exceed that of the whole: sum floor(n_i / 2^14) <= floor(n / 2^14)). *)
+Theorem C08_multi_parts : forall (cs : list scfg) (ns : list N) (scheds : list (list mblock * bool)) (ts : list N),
+  length cs = length ns -> length scheds = length ns -> length ts = length ns ->
+  (forall i c n bs fe t, nth_error cs i = Some c -> nth_error ns i = Some n ->
+     nth_error scheds i = Some (bs, fe) -> nth_error ts i = Some t ->
+     scfg_ok c = true /\ s_magic c = false /\ schedule_ok c n bs fe = true /\ stream_bytes c n bs fe = Some t) ->
+  0 < sumN ns -> sumN ns < 2 ^ 62 -> N.of_nat (length ns) < 2 ^ 32 ->
+  exists B, max_compressed_size_multi (sumN ns) (N.of_nat (length ns)) = Ok B
+            /\ sumN ts + 27 <= B + 3 * N.of_nat (length ns).
+Proof. exact multi_parts_statement. Qed.
+Print Assumptions C08_multi_parts.
+
+(* PARTIAL (the full statement is C08_multi_stmt below): with the concatenator's saving as a visible
+   hypothesis - 15 bits per seam: a later part loses the 5 source bytes of window field + first
+   header and regains at most 20 header bits and 7 padding bits, the earlier part loses its 2-bit
+   end marker (what spec/ConcatSpec.add_member does to catable parts; its length consequence is
+   not proved) - the stitched stream fits the Multi bound for up to 22 parts (MAX_THREADS is 16). *)
+Theorem C08_multi_partial : forall (cs : list scfg) (ns : list N) (scheds : list (list mblock * bool)) (ts : list N) stitched,
+  length cs = length ns -> length scheds = length ns -> length ts = length ns ->
+  (forall i c n bs fe t, nth_error cs i = Some c -> nth_error ns i = Some n ->
+     nth_error scheds i = Some (bs, fe) -> nth_error ts i = Some t ->
+     scfg_ok c = true /\ s_magic c = false /\ schedule_ok c n bs fe = true /\ stream_bytes c n bs fe = Some t) ->
+  0 < sumN ns -> sumN ns < 2 ^ 62 -> N.of_nat (length ns) <= 22 ->
+  8 * stitched + 15 * (N.of_nat (length ns) - 1) <= 8 * sumN ts + 7 ->
+  exists B, max_compressed_size_multi (sumN ns) (N.of_nat (length ns)) = Ok B /\ stitched <= B.
+Proof. exact multi_given_concat. Qed.
+Print Assumptions C08_multi_partial.
+
+(* NOT PROVED (kept as a statement): the same without the hypothesis on the concatenator, stated
+   against the bit-level specification of the concatenator (spec/ConcatSpec.concat_spec, which the
+   real concatenator is proved to follow for every slicing: C03_bits_any_slicing): the worker
+   streams are byte strings of the accounted lengths and the stitched stream is what the
+   specification makes of them.  Missing: the length consequence of concat_spec for catable parts
+   (15 bits saved per seam), and that CompressMulti configures its workers without magic header
+   (the real multi-threaded output is checked against the bound on every run). *)
 Definition C08_multi_stmt : Prop :=
-  forall (parts : list N) (sizes : list N) n t B,
-    fold_right N.add 0 parts = n -> N.of_nat (length parts) = t ->
-    max_compressed_size_multi n t = Ok B ->
-    (* sizes = what the stitched stream contains of each part *)
-    length sizes = length parts ->
-    fold_right N.add 0 sizes <= B.
+  forall (cs : list scfg) (ns : list N) (scheds : list (list mblock * bool)) (members : list (list N)) expected,
+  length cs = length ns -> length scheds = length ns -> length members = length ns ->
+  (forall i c n bs fe m, nth_error cs i = Some c -> nth_error ns i = Some n ->
+     nth_error scheds i = Some (bs, fe) -> nth_error members i = Some m ->
+     scfg_ok c = true /\ s_magic c = false /\ schedule_ok c n bs fe = true
+     /\ stream_bytes c n bs fe = Some (Concat.lenN m)) ->
+  0 < sumN ns -> sumN ns < 2 ^ 62 -> N.of_nat (length ns) <= 16 ->
+  ConcatSpec.concat_spec None members = Some expected ->
+  exists B, max_compressed_size_multi (sumN ns) (N.of_nat (length ns)) = Ok B /\ Concat.lenN expected <= B.
 
 (* Non-vacuity: concrete points of every theorem's domain. *)
 Example C08_points :
